@@ -370,6 +370,9 @@ def load_unit(name):
         if sdef["file"] not in merged:
             merged[sdef["file"]] = {"file": sdef["file"], "items": []}
             order.append(sdef["file"])
+        for kk, vv in sdef.items():
+            if kk not in ("file", "items"):
+                merged[sdef["file"]][kk] = vv
         for it in sdef["items"]:
             k = it if isinstance(it, str) else it["key"]
             existing = [x if isinstance(x, str) else x["key"] for x in merged[sdef["file"]]["items"]]
